@@ -1111,9 +1111,15 @@ fn c18_truncate_fresh_unify_r5() {
 fn c18_truncate_fresh_unify_r5_follow() {
   c18_truncate_fresh(true, 5, 96, true);
 }
-// @h props=C18 tier=quick timeout=1200 mem=28 bounds=CAP=64,plain,reserved=3,nothing-allocated,n=40 optcover=state-only_variant
+// @h props=C18 tier=quick timeout=1200 mem=28 bounds=CAP=64,plain,reserved=3,nothing-allocated,n=40,state-only optcover=allocation_after_truncate
 #[kani::proof]
 #[kani::unwind(10)]
 fn c18_truncate_fresh_plain_r3() {
+  c18_truncate_fresh(false, 3, 40, false);
+}
+// @h props=C18 tier=thorough timeout=1800 mem=28 bounds=CAP=64,plain,reserved=3,nothing-allocated,n=40,follow-up-request optcover=state-only_variant
+#[kani::proof]
+#[kani::unwind(10)]
+fn c18_truncate_fresh_plain_r3_follow() {
   c18_truncate_fresh(false, 3, 40, true);
 }
